@@ -2,7 +2,7 @@
 Correspondence: DoFiles layer in-process (candidate list with $1,$2,$3) for all small names/depths;
 process level: redo-whichdo listing and the arguments/cwd echoed by instrumented scripts placed at
 every candidate position; re-selection after adding / removing candidates."""
-import itertools, random
+import itertools, re, random
 from common import *
 from proj import Project
 
@@ -171,6 +171,49 @@ def argv_level(ctx, viol, stats):
         pr.destroy()
 
 
+def symlink_level(ctx, viol, stats):
+    """`redo-whichdo` must list exactly the candidates the builder considers, also when the target's directory is
+    reached through a symlinked directory (or through `..` after one): the listing for every spelling of one file,
+    resolved to real paths, is one list, and its last line is the script that actually builds the file."""
+    from proj import Project
+    pr = Project()
+    try:
+        os.makedirs(pr.path("real/deep"))
+        os.symlink("real/deep", pr.path("link"))
+        os.makedirs(pr.path("other"))
+        marker = 'echo "built by $0 in $PWD as $1"\n'
+        pr.write("real/default.out.do", marker)
+        pr.write("default.out.do", marker)
+        pr.write("default.do", marker)
+        spell = {"real/deep/z.out": ["real/deep/z.out", "link/z.out", "other/../link/z.out", "./real/./deep/z.out"],
+                 "real/y.out": ["real/y.out", "link/../y.out", "real/deep/../y.out"]}
+        for f, sps in spell.items():
+            lists = {}
+            for sp in sps:
+                rc, out, err = pr.run(["redo-whichdo", sp])
+                stats["symlink_listings"] = stats.get("symlink_listings", 0) + 1
+                lists[sp] = [os.path.join(os.path.realpath(os.path.dirname(pr.path(l))), os.path.basename(l))[len(os.path.realpath(pr.root)) + 1:] for l in out.split("\n") if l]
+            ref = lists[sps[0]]
+            for sp in sps[1:]:
+                if lists[sp] != ref:
+                    p = write_replay("C13", "symlink-whichdo", dict(kind="impl-monitor", clause="redo-whichdo lists exactly the candidates considered (every spelling of one file)", file=f, spelling=sp,
+                                                                     listing=lists[sp], listing_of_plain_spelling=ref, tree="real/deep, link -> real/deep, other/; real/default.out.do, default.out.do, default.do"))
+                    viol.append(Violation("C13", p, "redo-whichdo %s lists %r, but for the same file spelled %s it lists %r" % (sp, lists[sp][:4], sps[0], ref[:4])))
+                    return
+            for sp in sps[1:2]:
+                rc, out, err = pr.run(["redo", sp])
+                got = (pr.read(f) or b"").decode()
+                chosen = ref[-1] if ref else None
+                m = re.match(r"built by (\S+) in (\S+) as", got)
+                used = os.path.join(m.group(2), os.path.basename(m.group(1)))[len(os.path.realpath(pr.root)) + 1:] if m else None
+                if rc != 0 or used != chosen:
+                    p = write_replay("C13", "symlink-choice", dict(kind="impl-monitor", clause="the script used is the first existing candidate that redo-whichdo lists", file=f, spelling=sp, rc=rc, whichdo=lists[sp], used=used, target=got[:200], stderr=err[-400:]))
+                    viol.append(Violation("C13", p, "`redo %s` was built by %r, but redo-whichdo %s ends at %r" % (sp, used, sp, lists[sp][-1:] )))
+                    return
+    finally:
+        pr.destroy()
+
+
 def run(ctx):
     rng = random.Random(ctx["seed"])
     thorough = ctx["tier"] == "thorough"
@@ -207,6 +250,8 @@ def run(ctx):
             late_directory(ctx, viol, stats)
         if not viol:
             argv_level(ctx, viol, stats)
+        if not viol:
+            symlink_level(ctx, viol, stats)
     ncand = sum(len(parse_cands(x) or []) for x in impl)
     return dict(evaluations=len(lines) + stats["placements"] * 2 + stats["reselect"] * 2,
                 distinct_nontrivial=len(set(l for l, r in zip(lines, impl) if r != "none" and r.count(",") >= 2)),
